@@ -694,17 +694,30 @@ def validate():
 
 
 def diff_values(ctx, W, pairs):
-    """For harness search mode: pairs = [(constructor, value)] -> those on which the regenerated serialiser and the hand model differ
+    """For harness search mode: pairs = [(constructor, value)] -> those on which the regenerated serialiser and the hand model differ, or
+    on whose serialisation (whole / followed by other bytes, both modes) the regenerated PARSER and the hand-model parser differ
     (evaluated by Lean; needs only Generated/TlEngine.lean and the driver modules, not the proofs).  Never raises."""
+    import copy
     from ..gen import tlvals as V
     try:
-        words = [f'dser:{c["idx"]}:{V.tok_obj(W, c, v)}' for c, v in pairs]
+        words, owner = [], []
+        for k, (c, v) in enumerate(pairs):
+            words.append(f'dser:{c["idx"]}:{V.tok_obj(W, c, v)}')
+            owner.append(k)
+            try:
+                ser = W.lib.serialize(W.lib.list[c['idx']], copy.deepcopy(v))
+            except Exception:
+                continue
+            for d, auto in ((ser, 0), (ser, 1), (ser + b'\x01\x02\x03\x04\x05', 0)):
+                words.append(f'ddes:{d.hex() or "-"}:{auto}')
+                owner.append(k)
         got = lean_eval(words)
     except Exception as e:
         ctx.notes.append(f'source-diff search (TlEngine) failed: {type(e).__name__}: {str(e)[:200]}')
         return []
-    found = [p for p, g in zip(pairs, got) if g == 'DIFF']
-    ctx.notes.append(f'source-diff search: regenerated TL serialiser vs hand model on {len(pairs)} values: ' +
+    hit = sorted({k for k, g in zip(owner, got) if g == 'DIFF'})
+    found = [pairs[k] for k in hit]
+    ctx.notes.append(f'source-diff search: regenerated TL serialiser and parser vs hand model on {len(pairs)} values ({len(words)} evaluations): ' +
                      (f'{len(found)} differ, e.g. ' + '; '.join(f'{c["name"]} {str(v)[:80]}' for c, v in found[:3]) if found else 'no differing value'))
     return found
 
